@@ -473,6 +473,13 @@ def C05(run):
         run.judge(v2, trk, "sched-" + kind + "-termination", only="C05:")
         run.cov["distinct_nontrivial"] += info["distinct_nontrivial"]
         total += info["records"]
+    # the repository's OWN integration tests (compiled WASM modules on the real runtime, segment size 10, one and five workers):
+    # every scheduler they build is traced through the same hook and validated by the same specification
+    if not getattr(run, "replay", None):
+        rt, passed, tail = run.repo_test_traces("./test/", _t(run, "repo-tests"))
+        v = run.validate("TraceSched", rt, xss="512m")
+        run.judge(v, rt, "sched-repository-tests", only="C05:")
+        run.cov["repository_tests_traced"] = {"package": "./test/", "tests_passed": passed}
     run.sample(trk, pick={3, 4, 5})
     run.cov["rule"] = ("scheduler traces: every Scheduler.Update (verif hook at the end of Update: message, unit matrix, segmentCompleted, "
                        "workers, walker, flags) of real tier1 runs on generated programs with 1..4 workers, harness-chosen random job "
